@@ -200,6 +200,7 @@ func cmdCheck(args []string) int {
 	jobs := fs.Int("jobs", 0, "worker count")
 	noReplay := fs.Bool("no-replay", false, "do not replay counterexamples natively (debug)")
 	verbose := fs.Bool("v", false, "verbose")
+	maxPaths := fs.Int("max-paths", 0, "stop each harness after this many paths (debug; result is then truncated)")
 	fs.Parse(args)
 	if *tier == "" {
 		*tier = os.Getenv("VERIF_TIER")
@@ -271,6 +272,9 @@ func cmdCheck(args []string) int {
 		c := *cfg
 		c.Name, c.Func, c.Pkg = h.Name, h.Func, h.Pkg
 		c.defaults()
+		if *maxPaths > 0 {
+			c.MaxPaths = *maxPaths
+		}
 		sp := pkgs[pkgImportPath(h.Pkg)]
 		if sp == nil {
 			fmt.Fprintln(os.Stderr, "package not loaded:", h.Pkg)
@@ -360,6 +364,7 @@ func cmdCheck(args []string) int {
 		}
 	}
 
+	dumpForks()
 	// evidence
 	writeEvidence(&pc, *tier, seed, reports, funcs, stubs, total, notDecidedAll, viols, knownPrinted, time.Since(start).Seconds(), loadS)
 
